@@ -9,6 +9,7 @@ import (
 	"fmt"
 	"io"
 	"math"
+	"sort"
 	"strconv"
 	"strings"
 
@@ -647,8 +648,8 @@ func runOp(op string) (out string) {
 		s, _ := timeEnc(xs)
 		same := bytes.Equal(b, s)
 		v1, e1, _ := timeDecIter(b)
-		v2, e2 := tsm1.TimeArrayDecodeAll(b, nil)
-		v3, e3 := tsm1.TimeArrayDecodeAll(s, nil)
+		v2, e2 := tsm1.TimeArrayDecodeAll(b, dirtyI64(len(xs)))
+		v3, e3 := tsm1.TimeArrayDecodeAll(s, dirtyI64(len(xs)))
 		rt := e1 == nil && e2 == nil && e3 == nil && eqU(v1, xs) && eqU(u64s(v2), xs) && eqU(u64s(v3), xs)
 		_ = same
 		return fmt.Sprintf("batch rt=%v", rt)
@@ -673,10 +674,10 @@ func runOp(op string) (out string) {
 		s, _ := intEnc(xs)
 		same := bytes.Equal(b, s)
 		v1, e1, _ := intDecIter(b)
-		v2, e2 := tsm1.IntegerArrayDecodeAll(b, nil)
-		v3, e3 := tsm1.IntegerArrayDecodeAll(s, nil)
+		v2, e2 := tsm1.IntegerArrayDecodeAll(b, dirtyI64(len(xs)))
+		v3, e3 := tsm1.IntegerArrayDecodeAll(s, dirtyI64(len(xs)))
 		ub, e4 := tsm1.UnsignedArrayEncodeAll(append([]uint64(nil), xs...), nil)
-		v4, e5 := tsm1.UnsignedArrayDecodeAll(ub, nil)
+		v4, e5 := tsm1.UnsignedArrayDecodeAll(ub, dirtyU64(len(xs)))
 		rt := e1 == nil && e2 == nil && e3 == nil && e4 == nil && e5 == nil && eqU(v1, xs) && eqU(u64s(v2), xs) && eqU(u64s(v3), xs) && eqU(v4, xs)
 		_ = same
 		return fmt.Sprintf("batch rt=%v", rt)
@@ -757,7 +758,7 @@ func runOp(op string) (out string) {
 			for dec.Next() {
 				got = append(got, dec.Values())
 			}
-			arr, err := tsm1.FloatArrayDecodeAll(b, nil)
+			arr, err := tsm1.FloatArrayDecodeAll(b, dirtyF64(len(src)))
 			if dec.Error() != nil || err != nil || len(got) != len(src) || len(arr) != len(src) {
 				rt = false
 				continue
@@ -799,7 +800,7 @@ func runOp(op string) (out string) {
 			for dec.Next() {
 				got = append(got, dec.Read())
 			}
-			arr, err := tsm1.StringArrayDecodeAll(b, nil)
+			arr, err := tsm1.StringArrayDecodeAll(b, dirtyStr(len(src)))
 			if dec.Error() != nil || err != nil || len(got) != len(src) || len(arr) != len(src) {
 				rt = false
 				continue
@@ -824,7 +825,7 @@ func runOp(op string) (out string) {
 		}
 		s := boolEnc(f[1])
 		v1, e1, _ := boolDecIter(b)
-		v2, e2 := tsm1.BooleanArrayDecodeAll(s, nil)
+		v2, e2 := tsm1.BooleanArrayDecodeAll(s, dirtyBool(len(src)))
 		var sb strings.Builder
 		for _, x := range v2 {
 			if x {
@@ -916,15 +917,115 @@ func runOp(op string) (out string) {
 		}
 		r := tsm1.NewWALSegmentReader(io.NopCloser(bytes.NewReader(seg[:k])))
 		n := 0
+		var kept []tsm1.WALEntry
 		for r.Next() {
-			if _, err := r.Read(); err != nil {
+			e, err := r.Read()
+			if err != nil {
 				break
 			}
+			kept = append(kept, e)
 			n++
+		}
+		// what was read must still be what was written once the whole segment has been read
+		// (the cache loader keeps the values of every entry): each kept entry against a
+		// fresh decode of its own frame
+		off := 0
+		for i, e := range kept {
+			if off+5 > len(seg) {
+				break
+			}
+			l := int(binary.BigEndian.Uint32(seg[off+1 : off+5]))
+			if off+5+l > len(seg) {
+				break
+			}
+			raw, err := snappy.Decode(nil, seg[off+5:off+5+l])
+			if err != nil {
+				return fmt.Sprintf("WAL-CONTENT frame %d does not decompress", i)
+			}
+			var fresh tsm1.WALEntry
+			switch seg[off] {
+			case byte(tsm1.WriteWALEntryType):
+				fresh = &tsm1.WriteWALEntry{Values: map[string][]tsm1.Value{}}
+			case byte(tsm1.DeleteWALEntryType):
+				fresh = &tsm1.DeleteWALEntry{}
+			case byte(tsm1.DeleteRangeWALEntryType):
+				fresh = &tsm1.DeleteRangeWALEntry{}
+			}
+			if fresh == nil || fresh.UnmarshalBinary(raw) != nil {
+				return fmt.Sprintf("WAL-CONTENT frame %d does not decode", i)
+			}
+			if a, b := canonEntry(e), canonEntry(fresh); a != b {
+				return fmt.Sprintf("WAL-CONTENT-DIFFERS entry %d reads %.80s after the segment was read through, its frame holds %.80s", i, a, b)
+			}
+			off += 5 + l
 		}
 		return fmt.Sprintf("ok %d %d", n, r.Count())
 	}
 	return "bad-op"
+}
+
+// dirty*: the destination slice an array decoder is handed by its callers — the previous
+// block's values, longer than the block to decode
+func dirtyI64(n int) []int64 {
+	d := make([]int64, n+9)
+	for i := range d {
+		d[i] = -0x5eadbeef
+	}
+	return d
+}
+func dirtyU64(n int) []uint64 {
+	d := make([]uint64, n+9)
+	for i := range d {
+		d[i] = 0xdeadbeefdeadbeef
+	}
+	return d
+}
+func dirtyF64(n int) []float64 {
+	d := make([]float64, n+9)
+	for i := range d {
+		d[i] = -12345.678
+	}
+	return d
+}
+func dirtyStr(n int) []string {
+	d := make([]string, n+9)
+	for i := range d {
+		d[i] = "stale"
+	}
+	return d
+}
+func dirtyBool(n int) []bool {
+	d := make([]bool, n+9)
+	for i := range d {
+		d[i] = true
+	}
+	return d
+}
+
+// canonEntry renders a WAL entry with its keys in order.
+func canonEntry(e tsm1.WALEntry) string {
+	switch x := e.(type) {
+	case *tsm1.WriteWALEntry:
+		var ks []string
+		for k := range x.Values {
+			ks = append(ks, k)
+		}
+		sort.Strings(ks)
+		var sb strings.Builder
+		for _, k := range ks {
+			fmt.Fprintf(&sb, "%q:", k)
+			for _, v := range x.Values[k] {
+				fmt.Fprintf(&sb, "%d=%T(%v),", v.UnixNano(), v.Value(), v.Value())
+			}
+			sb.WriteString(";")
+		}
+		return "write " + sb.String()
+	case *tsm1.DeleteWALEntry:
+		return fmt.Sprintf("delete %q", x.Keys)
+	case *tsm1.DeleteRangeWALEntry:
+		return fmt.Sprintf("deleterange %q %d %d", x.Keys, x.Min, x.Max)
+	}
+	return fmt.Sprintf("%T", e)
 }
 
 // zeroReader delivers `left` zero bytes, a few at a time.
@@ -967,6 +1068,9 @@ func (Prop) Oracle(c fw.Case, out []string) fw.Verdict {
 		o := out[i]
 		if strings.HasPrefix(o, "panic") {
 			return fw.Verdict{OK: false, Why: op[:min(len(op), 200)] + " => " + o, Signature: "panic in " + f[0]}
+		}
+		if strings.HasPrefix(o, "WAL-CONTENT") {
+			return fw.Verdict{OK: false, Why: op[:min(len(op), 120)] + " => " + o, Signature: "WAL entry changes after it was read"}
 		}
 		switch f[0] {
 		case "walgrow":
